@@ -106,3 +106,15 @@ func JoinOf(elems []string, sep string) string { return strings.Join(elems, sep)
 //@ assigns none
 //@ pure
 //@ end
+
+// Formatting helpers that only occur in panic / error messages.
+//
+//@ ext strconv.Itoa func(i int) (s string)
+//@ assigns none
+//@ pure
+//@ end
+
+//@ ext (error).Error func(e error) (s string)
+//@ assigns none
+//@ pure
+//@ end
